@@ -650,6 +650,52 @@ pub fn records_in_container(p: RecParams) -> BoxedStrategy<(Vec<Rec>, Container)
 }
 
 // ---------------------------------------------------------------------------------------------
+// contention on NEW keys: a few kilobytes of unrelated reads first (warm-up thresholds), then units of
+// pseudo-random text each written as several adjacent copies, so that workers that take neighbouring
+// records meet the same not-yet-counted k-mers at the same time, all through the run
+
+#[derive(Clone, Debug, Serialize, Deserialize, PartialEq, Eq)]
+pub struct DupSpec {
+    pub seed: u64,
+    /// unrelated reads in front
+    pub prefix: usize,
+    pub units: usize,
+    pub copies: usize,
+    pub unit_len: usize,
+}
+
+impl DupSpec {
+    pub fn expand(&self) -> Vec<Rec> {
+        let text = |seed: u64, len: usize| -> Vec<u8> {
+            let mut s = seed;
+            (0..len)
+                .map(|_| {
+                    s = crate::util::splitmix(s);
+                    CLEAN[(s >> 40) as usize % 4]
+                })
+                .collect()
+        };
+        let mut out = Vec::new();
+        for i in 0..self.prefix {
+            out.push(Rec { id: format!("p{}", i), desc: None, seq: Bytes(text(self.seed ^ (0x1000 + i as u64), 150)) });
+        }
+        for u in 0..self.units {
+            let t = text(self.seed ^ (0x900000 + u as u64), self.unit_len);
+            for c in 0..self.copies {
+                out.push(Rec { id: format!("u{}_{}", u, c), desc: None, seq: Bytes(t.clone()) });
+            }
+        }
+        out
+    }
+}
+
+pub fn dup_strategy() -> BoxedStrategy<DupSpec> {
+    (any::<u64>(), prop_oneof![1 => Just(0usize), 3 => 20usize..=60], 4usize..=40, 2usize..=8, 60usize..=500)
+        .prop_map(|(seed, prefix, units, copies, unit_len)| DupSpec { seed, prefix, units, copies, unit_len })
+        .boxed()
+}
+
+// ---------------------------------------------------------------------------------------------
 // alignment of record starts: readers and pre-passes that scan the file in blocks (8 KiB buffers, 64 KiB,
 // 1 MiB) are only wrong when a record boundary or a header line meets a block boundary exactly
 
